@@ -405,6 +405,19 @@ func c02carry(c *core.Ctx, r *core.Reporter) {
 				n++
 				joined, how := joinedWithCarry(val)
 				key := fmt.Sprintf("%s|src[tokenStart]%s->%s", core.SSAName(fn), kind, useDesc(val))
+				if !joined {
+					// strings and |symbols| continue in the escape buffer r.buf: the part read so far is appended
+					// to it (at an escape, or at the end of a block), and the block is used directly only while the
+					// buffer is empty — which is the whole token only if the end-of-block code moves the part of an
+					// unfinished string into the buffer
+					if appendedToBuf(val) {
+						joined, how = true, "appended to r.buf, the buffer a string or |symbol| continues in"
+					} else if bufEmptyAt(fn, b) {
+						if bufSavedAtBlockEnd(fn) {
+							joined, how = true, "used directly only while r.buf is empty; the end-of-block code moves the part of an unfinished string into r.buf"
+						}
+					}
+				}
 				if joined {
 					r.Hold(rule, key, c.Pos(in.Pos()), "joined with r.carry: "+how)
 				} else {
@@ -588,28 +601,15 @@ func useDesc(v ssa.Value) string {
 // controlDependsOnMode: some dominator of b ends in a branch whose condition
 // compares a load of reader.mode.
 func controlDependsOnMode(b *ssa.BasicBlock) bool {
-	for d := b.Idom(); d != nil; d = d.Idom() {
-		ifi, ok := d.Instrs[len(d.Instrs)-1].(*ssa.If)
-		if !ok {
-			continue
+	// every path from the entry to b crosses the equal outcome of a comparison of r.mode with something: the
+	// if-form and the switch-form (several cases sharing one body, so the body has several predecessors)
+	return core.Separates(b.Parent(), b, func(*ssa.Function) bool { return false }, func(ifi *ssa.If, branch bool) bool {
+		bo, ok := ifi.Cond.(*ssa.BinOp)
+		if !ok || !(loadsField(bo.X, core.SlipPath, "reader", "mode") || loadsField(bo.Y, core.SlipPath, "reader", "mode")) {
+			return false
 		}
-		// d must actually control b: b is not reachable from both successors without passing... approximated by: one successor dominates b
-		ctrl := false
-		for _, s := range d.Succs {
-			if s.Dominates(b) && len(s.Preds) == 1 {
-				ctrl = true
-			}
-		}
-		if !ctrl {
-			continue
-		}
-		if bo, ok := ifi.Cond.(*ssa.BinOp); ok {
-			if loadsField(bo.X, core.SlipPath, "reader", "mode") || loadsField(bo.Y, core.SlipPath, "reader", "mode") {
-				return true
-			}
-		}
-	}
-	return false
+		return (bo.Op == token.EQL && branch) || (bo.Op == token.NEQ && !branch)
+	})
 }
 
 // eofExempt: modes in which the end of the input is not inside a construct.
@@ -663,4 +663,90 @@ func c02eof(c *core.Ctx, r *core.Reporter, read *ssa.Function, tables map[string
 		}
 		r.Decide(handled[t], rule, nm, c.Pos(read.Pos()), fmt.Sprintf("mode handled at end of input: %v", handled[t]))
 	}
+}
+
+// appendedToBuf: v is the second operand of append(r.buf, v...).
+func appendedToBuf(v ssa.Value) bool {
+	if v.Referrers() == nil {
+		return false
+	}
+	for _, rf := range *v.Referrers() {
+		call, ok := rf.(*ssa.Call)
+		if !ok {
+			continue
+		}
+		if bi, ok := call.Call.Value.(*ssa.Builtin); ok && bi.Name() == "append" && len(call.Call.Args) == 2 && call.Call.Args[1] == v && loadsField(call.Call.Args[0], core.SlipPath, "reader", "buf") {
+			return true
+		}
+	}
+	return false
+}
+
+// bufEmptyAt: every path to b crosses the outcome of a test that says len(r.buf) is zero.
+func bufEmptyAt(fn *ssa.Function, b *ssa.BasicBlock) bool {
+	return core.Separates(fn, b, func(*ssa.Function) bool { return false }, func(ifi *ssa.If, branch bool) bool {
+		bo, ok := ifi.Cond.(*ssa.BinOp)
+		if !ok {
+			return false
+		}
+		lenOfBuf := func(v ssa.Value) bool {
+			call, ok := v.(*ssa.Call)
+			if !ok {
+				return false
+			}
+			bi, ok := call.Call.Value.(*ssa.Builtin)
+			return ok && bi.Name() == "len" && len(call.Call.Args) == 1 && loadsField(call.Call.Args[0], core.SlipPath, "reader", "buf")
+		}
+		zero := func(v ssa.Value) bool {
+			k, ok := v.(*ssa.Const)
+			return ok && k.Value != nil && k.Int64() == 0
+		}
+		switch {
+		case lenOfBuf(bo.X) && zero(bo.Y): // len(buf) OP 0
+			return (bo.Op == token.EQL && branch) || (bo.Op == token.NEQ && !branch) || (bo.Op == token.GTR && !branch) || (bo.Op == token.LEQ && branch)
+		case zero(bo.X) && lenOfBuf(bo.Y): // 0 OP len(buf)
+			return (bo.Op == token.EQL && branch) || (bo.Op == token.NEQ && !branch) || (bo.Op == token.LSS && !branch) || (bo.Op == token.GEQ && branch)
+		}
+		return false
+	})
+}
+
+// bufSavedAtBlockEnd: reader.read, outside its byte loop, stores append(r.buf, src[tokenStart:...]...) into r.buf
+// under a test of r.more and of r.mode.
+func bufSavedAtBlockEnd(fn *ssa.Function) bool {
+	loops := core.Loops(fn)
+	for _, b := range fn.Blocks {
+		if core.InnermostLoop(loops, b) != nil {
+			continue
+		}
+		for _, in := range b.Instrs {
+			st, ok := in.(*ssa.Store)
+			if !ok {
+				continue
+			}
+			fa, ok := st.Addr.(*ssa.FieldAddr)
+			if !ok || !isFieldOf(fa, core.SlipPath, "reader", "buf") {
+				continue
+			}
+			call, ok := st.Val.(*ssa.Call)
+			if !ok {
+				continue
+			}
+			bi, ok := call.Call.Value.(*ssa.Builtin)
+			if !ok || bi.Name() != "append" || len(call.Call.Args) != 2 || !loadsField(call.Call.Args[0], core.SlipPath, "reader", "buf") {
+				continue
+			}
+			sl, ok := call.Call.Args[1].(*ssa.Slice)
+			if !ok || sl.Low == nil || !derivesFromField(sl.Low, "tokenStart", 0) {
+				continue
+			}
+			more := core.Separates(fn, b, func(*ssa.Function) bool { return false }, func(ifi *ssa.If, branch bool) bool {
+				return branch && loadsField(ifi.Cond, core.SlipPath, "reader", "more")
+			})
+			if more && controlDependsOnMode(b) {
+				return true
+			}
+		}
+	}
+	return false
 }
